@@ -78,3 +78,9 @@ Proof.
   revert n; induction l; intros n H; simpl in H; [lia|].
   destruct n; simpl; [reflexivity|]. f_equal. apply IHl. lia.
 Qed.
+
+(* ---- methods whose receiver pointer may be nil ----
+   A method on a VALUE struct (receiver-field convention) that compares its receiver with nil, or
+   calls such a method on it, takes the flag "the receiver pointer is nil" as its first argument;
+   every access to a field of the receiver is preceded by [go_rcv]: Go's nil-dereference panic. *)
+Definition go_rcv (isnil : bool) : res unit := if isnil then Panic PNil else Ok tt.
